@@ -49,3 +49,9 @@ Lemma teqb_sym a b : teqb a b = teqb b a.
 Proof.
   unfold teqb. rewrite (Z.eqb_sym (lam a)), (N.eqb_sym (act a)), (N.eqb_sym (dlm a)). reflexivity.
 Qed.
+
+Lemma tafter_total_b a b : a <> b -> tafter a b = true \/ tafter b a = true.
+Proof. rewrite !tafter_spec. apply tgt_total. Qed.
+
+Lemma tafter_trans_b a b c : tafter a b = true -> tafter b c = true -> tafter a c = true.
+Proof. rewrite !tafter_spec. apply tgt_trans. Qed.
